@@ -479,10 +479,11 @@ class RSocketBase(RSocket, RSocketInternal):
         logger().debug('%s: Cleanup', self._log_identifier())
 
         self._is_closing = True
-        await cancel_if_task_exists(self._sender_task)
-        self._sender_task = None
-        await cancel_if_task_exists(self._receiver_task)
-        self._receiver_task = None
+        # only the tasks of the connection being closed: a reconnect may start new ones while these are being awaited
+        sender_task, self._sender_task = self._sender_task, None
+        receiver_task, self._receiver_task = self._receiver_task, None
+        await cancel_if_task_exists(sender_task)
+        await cancel_if_task_exists(receiver_task)
 
     async def _close_transport(self):
         if self._current_transport().done():
